@@ -19,7 +19,7 @@ def h12_consume_mem(S):
 
     ts = S.int("timestamp", Y2000, Y2050)
     has_ttl = S.flag("has_ttl")
-    ttl = S.int("ttl", SEC, HUNDRED_Y) if has_ttl else None
+    ttl = S.int("ttl", 0, HUNDRED_Y) if has_ttl else None
     now = S.int("now", Y2000, Y2100)
     origin = S.pick("origin", 2)          # 0 waiting, 1 delayed and due
     due = S.int("due", Y2000, Y2100) if origin == 1 else None
@@ -110,7 +110,7 @@ def h12_consume_broker(S, backend="redis"):
 
     ts = S.int("timestamp", Y2000, Y2050)
     has_ttl = S.flag("has_ttl")
-    ttl = S.int("ttl", SEC, HUNDRED_Y) if has_ttl else None
+    ttl = S.int("ttl", 0, HUNDRED_Y) if has_ttl else None
     now = S.int("now", Y2000, Y2100)
     S.assume(now >= ts)
     clock = PinnedClock(ts)
@@ -180,7 +180,7 @@ def _cb(backend):
 HARNESSES = [
     Harness(
         name="H12-consume-mem", scenario=h12_consume_mem,
-        bounds={"timestamp": "2000..2050", "ttl": "None or [1 s, 100 y]", "delivery instant": "2000..2100 (incl. exactly at expiry)",
+        bounds={"timestamp": "2000..2050", "ttl": "None or [0, 100 y] (Parameters built directly; Job itself refuses ttl < 1 s)", "delivery instant": "2000..2100 (incl. exactly at expiry)",
                 "origin": "waiting or delayed (due time symbolic)"},
         functions=["connections/in_memory/consumer.py:_InMemoryConsumer.consume", "data/_parameters.py:Parameters.is_overdue"],
         covers=["handed-over", "withheld", "not-due"],
@@ -194,7 +194,7 @@ HARNESSES = [
 ]
 HARNESSES += [
     Harness(name="H12-consume-redis", scenario=_cb("redis"),
-            bounds={"timestamp": "2000..2050", "ttl": "None or [1 s, 100 y]", "delivery instant": "any µs >= timestamp up to 2100", "priority": "LOW / MEDIUM / HIGH"},
+            bounds={"timestamp": "2000..2050", "ttl": "None or [0, 100 y] (Parameters built directly; Job itself refuses ttl < 1 s)", "delivery instant": "any µs >= timestamp up to 2100", "priority": "LOW / MEDIUM / HIGH"},
             functions=["connections/redis/consumer.py:_RedisConsumer.consume_or_none", "connections/redis/message_broker.py:RedisMessageBroker.nack"],
             covers=["handed-over", "withheld"], stubs=["fake Redis server; parameters cross the JSON text through sentinels"]),
     Harness(name="H12-consume-rabbit", scenario=_cb("rabbit"),
